@@ -36,6 +36,15 @@ class Buf:
         self.x.free(self)
 
 
+def _die_with_parent():
+    """an executor spinning in a library loop must not outlive the worker that drives it (PR_SET_PDEATHSIG = 1, SIGKILL = 9)"""
+    try:
+        import ctypes
+        ctypes.CDLL("libc.so.6", use_errno=True).prctl(1, 9, 0, 0, 0)
+    except Exception:
+        pass
+
+
 class Sym:
     def __init__(self, name):
         self.name = name
@@ -75,7 +84,7 @@ class X:
         env["UBSAN_OPTIONS"] = "halt_on_error=1:print_stacktrace=1"
         env.update(self.extra_env)
         self.p = subprocess.Popen(self.wrapper + [os.path.join(self.dir, "b2x")], stdin=subprocess.PIPE,
-                                  stdout=subprocess.PIPE, stderr=self.errf, env=env, bufsize=0)
+                                  stdout=subprocess.PIPE, stderr=self.errf, env=env, bufsize=0, preexec_fn=_die_with_parent)
         self.rbuf = b""
         self.nid = 0
         self.freeids = []
